@@ -30,6 +30,9 @@ func (t *taint) explains(v *core.Verdict) bool {
 	if v == nil {
 		return false
 	}
+	if v.Any {
+		return true
+	}
 	for _, r := range v.BadRegs {
 		if !t.regs[r] {
 			return false
@@ -306,11 +309,15 @@ func featuresOf(c *core.Case) *features {
 			if !w2 || rd2 != rd || readsReg(inst(j), rd) {
 				continue
 			}
+			commit := j >= n-8 // the end of the run commits too
 			for k := j + 1; k < n && k <= j+8; k++ {
 				if inst(k).Op.IsCondBranch() {
-					f.slowWaw = true
-					oSlow = append(oSlow, origin{pos: j, reg: rd, hasReg: true})
+					commit = true
 				}
+			}
+			if commit {
+				f.slowWaw = true
+				oSlow = append(oSlow, origin{pos: j, reg: rd, hasReg: true})
 			}
 		}
 	}
